@@ -77,11 +77,11 @@ VARIABLES
     ipc, imTo,
     \* ---- persister
     ppc, lastPers, pSnap, pUnp, lastMerged,
-    pW, pWep,    \* the persister's CURRENT epochWatcher: none | slot | listed | notified ; its epoch
+    pW,          \* the persister's CURRENT epochWatcher: none | slot | listed | notified
     iSlot,       \* introducerNotifier: empty | cur | stale
     \* ---- merger
     mpc, ctrl, lastPlanned, mSnap, nMerges,
-    mW, mWep,    \* the merger's CURRENT epochWatcher
+    mW,          \* the merger's CURRENT epochWatcher
     pSlot, pSlotEp, \* persisterNotifier: empty | cur | stale ; epoch carried
     \* ---- ForceMerge
     fmSlot,      \* forceMergeRequestCh: None or the requesting caller
@@ -94,8 +94,8 @@ clvars == <<closed, closeBegun, closeRet>>
 bvars  == <<applied, persisted, rootPers, ourPers>>
 rvars  == <<epoch, unp>>
 ivars  == <<ipc, imTo>>
-pvars  == <<ppc, lastPers, pSnap, pUnp, lastMerged, pW, pWep, iSlot>>
-mvars  == <<mpc, ctrl, lastPlanned, mSnap, nMerges, mW, mWep, pSlot, pSlotEp>>
+pvars  == <<ppc, lastPers, pSnap, pUnp, lastMerged, pW, iSlot>>
+mvars  == <<mpc, ctrl, lastPlanned, mSnap, nMerges, mW, pSlot, pSlotEp>>
 fvars  == <<fmSlot, fmDone, fmInProg>>
 vars   == <<cvars, lvars, clvars, bvars, rvars, ivars, pvars, mvars, fvars>>
 
@@ -118,10 +118,10 @@ Init ==
     /\ ipc = (IF Scorch THEN "sel" ELSE "absent") /\ imTo = None
     /\ ppc = (IF HasLoops THEN "top" ELSE "absent")
     /\ lastPers = 0 /\ pSnap = 0 /\ pUnp = 0 /\ lastMerged = 0
-    /\ pW = "none" /\ pWep = 0 /\ iSlot = "empty"
+    /\ pW = "none" /\ iSlot = "empty"
     /\ mpc = (IF HasLoops THEN "top" ELSE "absent")
     /\ ctrl = None /\ lastPlanned = 0 /\ mSnap = 0 /\ nMerges = 0
-    /\ mW = "none" /\ mWep = 0 /\ pSlot = "empty" /\ pSlotEp = 0
+    /\ mW = "none" /\ pSlot = "empty" /\ pSlotEp = 0
     /\ fmSlot = None /\ fmDone = {} /\ fmInProg = 0
 
 (***************************************************************************)
@@ -297,7 +297,9 @@ AfterOK(cm, snap) ==    \* if ctrlMsg.doneCh != nil { close(doneCh) }; ctrlMsg =
 
 \* ------------------------------------------------------------ introducerLoop
 (* after every non-close arm: close(w.notifyCh) for watchers with w.epoch < root.epoch *)
-PWAfterPass(state, ep) == IF state = "listed" /\ pWep < ep THEN "notified" ELSE state
+\* (the watcher's epoch is lastPersistedEpoch at its creation, and lastPersistedEpoch does not change
+\*  while the persister still waits on that watcher - so w.epoch = lastPers for the current watcher)
+PWAfterPass(state, ep) == IF state = "listed" /\ lastPers < ep THEN "notified" ELSE state
 
 IClose ==        \* case <-s.closeCh: break OUTER
     /\ ipc = "sel" /\ closed /\ ipc' = "done"
@@ -307,7 +309,7 @@ IWatcher ==      \* case epochWatcher := <-s.introducerNotifier
     /\ ipc = "sel" /\ iSlot # "empty"
     /\ iSlot' = "empty"
     /\ pW' = PWAfterPass(IF iSlot = "cur" THEN "listed" ELSE pW, epoch)
-    /\ UNCHANGED <<cvars, lvars, clvars, bvars, rvars, ivars, ppc, lastPers, pSnap, pUnp, lastMerged, pWep, mvars, fvars>>
+    /\ UNCHANGED <<cvars, lvars, clvars, bvars, rvars, ivars, ppc, lastPers, pSnap, pUnp, lastMerged, mvars, fvars>>
 
 \* case next := <-s.introductions  (rendezvous with prepareSegment's send);
 \* introduceSegment: new root, rootPersisted appended, close(next.applied)
@@ -318,7 +320,7 @@ IBatch(c) ==
     /\ rootPers' = IF op[c] = "batchS" /\ Engine = "disk" THEN rootPers \cup {c} ELSE rootPers
     /\ epoch' = epoch + 1 /\ unp' = unp + 1
     /\ pW' = PWAfterPass(pW, epoch + 1)
-    /\ UNCHANGED <<op, pb, nops, cancelled, rd, viol, lvars, clvars, persisted, ourPers, ivars, ppc, lastPers, pSnap, pUnp, lastMerged, pWep, iSlot, mvars, fvars>>
+    /\ UNCHANGED <<op, pb, nops, cancelled, rd, viol, lvars, clvars, persisted, ourPers, ivars, ppc, lastPers, pSnap, pUnp, lastMerged, iSlot, mvars, fvars>>
 
 \* case persist := <-s.persists (rendezvous with persistSnapshotDirect);
 \* introducePersist: new root, close(persist.applied)
@@ -327,7 +329,7 @@ IPersist ==
     /\ ppc' = "finish"     \* `<-persist.applied` returns at once: introducePersist closed it in this very step
     /\ epoch' = epoch + 1 /\ unp' = unp - pUnp
     /\ pW' = PWAfterPass(pW, epoch + 1)
-    /\ UNCHANGED <<cvars, lvars, clvars, bvars, ivars, lastPers, pSnap, pUnp, lastMerged, pWep, iSlot, mvars, fvars>>
+    /\ UNCHANGED <<cvars, lvars, clvars, bvars, ivars, lastPers, pSnap, pUnp, lastMerged, iSlot, mvars, fvars>>
 
 \* case nextMerge := <-s.merges (rendezvous with the merger or with the
 \* persister's in-memory merge); introduceMerge ends with the unbuffered send
@@ -336,23 +338,23 @@ IMergeFromMerger ==
     /\ ipc = "sel" /\ mpc = "send"
     /\ mpc' = "wait_n" /\ ipc' = "mnotify" /\ imTo' = "merg"
     /\ epoch' = epoch + 1
-    /\ UNCHANGED <<cvars, lvars, clvars, bvars, unp, pvars, ctrl, lastPlanned, mSnap, nMerges, mW, mWep, pSlot, pSlotEp, fvars>>
+    /\ UNCHANGED <<cvars, lvars, clvars, bvars, unp, pvars, ctrl, lastPlanned, mSnap, nMerges, mW, pSlot, pSlotEp, fvars>>
 IMergeFromPersister ==
     /\ ipc = "sel" /\ ppc = "mm_send"
     /\ ppc' = "mm_wait" /\ ipc' = "mnotify" /\ imTo' = "pers"
     /\ epoch' = epoch + 1 /\ unp' = unp - pUnp
-    /\ UNCHANGED <<cvars, lvars, clvars, bvars, lastPers, pSnap, pUnp, lastMerged, pW, pWep, iSlot, mvars, fvars>>
+    /\ UNCHANGED <<cvars, lvars, clvars, bvars, lastPers, pSnap, pUnp, lastMerged, pW, iSlot, mvars, fvars>>
 \* nextMerge.notifyCh <- &mergeTaskIntroStatus{...}  (rendezvous with `<-sm.notifyCh`)
 IMergeNotifyMerger ==     \* ... and the merger's bookkeeping after a successful plan (local, fused)
     /\ ipc = "mnotify" /\ imTo = "merg" /\ mpc = "wait_n"
     /\ AfterOK(ctrl, mSnap) /\ ipc' = "sel" /\ imTo' = None
     /\ pW' = PWAfterPass(pW, epoch)
-    /\ UNCHANGED <<cvars, lvars, clvars, bvars, rvars, ppc, lastPers, pSnap, pUnp, lastMerged, pWep, iSlot, nMerges, mW, mWep, pSlot, pSlotEp, fmSlot, fmInProg>>
+    /\ UNCHANGED <<cvars, lvars, clvars, bvars, rvars, ppc, lastPers, pSnap, pUnp, lastMerged, iSlot, nMerges, mW, pSlot, pSlotEp, fmSlot, fmInProg>>
 IMergeNotifyPersister ==
     /\ ipc = "mnotify" /\ imTo = "pers" /\ ppc = "mm_wait"
     /\ ppc' = "finish" /\ ipc' = "sel" /\ imTo' = None
     /\ pW' = PWAfterPass(pW, epoch)
-    /\ UNCHANGED <<cvars, lvars, clvars, bvars, rvars, lastPers, pSnap, pUnp, lastMerged, pWep, iSlot, mvars, fvars>>
+    /\ UNCHANGED <<cvars, lvars, clvars, bvars, rvars, lastPers, pSnap, pUnp, lastMerged, iSlot, mvars, fvars>>
 
 IntroStep == IClose \/ IWatcher \/ (\E c \in Callers : IBatch(c)) \/ IPersist
              \/ IMergeFromMerger \/ IMergeFromPersister \/ IMergeNotifyMerger \/ IMergeNotifyPersister
@@ -363,7 +365,8 @@ AbandonPW == /\ pW' = "none"
              /\ iSlot' = IF pW = "slot" THEN "stale" ELSE iSlot
 
 \* notifyMergeWatchers(lastPersistedEpoch, persistWatchers)
-MWAfterNotify(state, lp) == IF state = "listed" /\ mWep < lp THEN "notified" ELSE state
+\* (likewise the merger's current watcher carries epoch = lastEpochMergePlanned)
+MWAfterNotify(state, lp) == IF state = "listed" /\ lastPlanned < lp THEN "notified" ELSE state
 
 \* receive an epochWatcher from persisterNotifier: appended to persistWatchers
 TakePSlot == /\ pSlot # "empty" /\ pSlot' = "empty" /\ pSlotEp' = 0
@@ -378,40 +381,40 @@ AfterPause(lm) ==   \* which branch of pausePersisterForMergerCatchUp blocks
 \* then `if ew.epoch > lastMergedEpoch`, then the non-blocking head of the pause function
 PTopClosed ==
     /\ ppc = "top" /\ closed /\ ppc' = "done"
-    /\ UNCHANGED <<cvars, lvars, clvars, bvars, rvars, ivars, lastPers, pSnap, pUnp, lastMerged, pW, pWep, iSlot, mvars, fvars>>
+    /\ UNCHANGED <<cvars, lvars, clvars, bvars, rvars, ivars, lastPers, pSnap, pUnp, lastMerged, pW, iSlot, mvars, fvars>>
 PTopWatcher ==
     /\ ppc = "top" /\ TakePSlot
     /\ LET lm == IF PauseMode = "slow" /\ pSlotEp > lastMerged THEN pSlotEp ELSE lastMerged IN
        /\ lastMerged' = lm
        /\ mW' = MWAfterNotify(MWTaken, lastPers)
        /\ ppc' = AfterPause(lm)
-    /\ UNCHANGED <<cvars, lvars, clvars, bvars, rvars, ivars, lastPers, pSnap, pUnp, pW, pWep, iSlot, mpc, ctrl, lastPlanned, mSnap, nMerges, mWep, fvars>>
+    /\ UNCHANGED <<cvars, lvars, clvars, bvars, rvars, ivars, lastPers, pSnap, pUnp, pW, iSlot, mpc, ctrl, lastPlanned, mSnap, nMerges, fvars>>
 PTopDefault ==
     /\ ppc = "top" /\ ~closed /\ pSlot = "empty"
     /\ mW' = MWAfterNotify(mW, lastPers)
     /\ ppc' = AfterPause(lastMerged)
-    /\ UNCHANGED <<cvars, lvars, clvars, bvars, rvars, ivars, lastPers, pSnap, pUnp, lastMerged, pW, pWep, iSlot, mpc, ctrl, lastPlanned, mSnap, nMerges, mWep, pSlot, pSlotEp, fvars>>
+    /\ UNCHANGED <<cvars, lvars, clvars, bvars, rvars, ivars, lastPers, pSnap, pUnp, lastMerged, pW, iSlot, mpc, ctrl, lastPlanned, mSnap, nMerges, pSlot, pSlotEp, fvars>>
 
 \* nap:  select { case <-closeCh: case <-time.After(..): case ew := <-persisterNotifier: ... }
 PNapCloseOrTimeout ==
     /\ ppc = "nap" /\ ppc' = "take"
-    /\ UNCHANGED <<cvars, lvars, clvars, bvars, rvars, ivars, lastPers, pSnap, pUnp, lastMerged, pW, pWep, iSlot, mvars, fvars>>
+    /\ UNCHANGED <<cvars, lvars, clvars, bvars, rvars, ivars, lastPers, pSnap, pUnp, lastMerged, pW, iSlot, mvars, fvars>>
 PNapWatcher ==
     /\ ppc = "nap" /\ TakePSlot
     /\ mW' = MWAfterNotify(MWTaken, lastPers) /\ ppc' = "take"
-    /\ UNCHANGED <<cvars, lvars, clvars, bvars, rvars, ivars, lastPers, pSnap, pUnp, lastMerged, pW, pWep, iSlot, mpc, ctrl, lastPlanned, mSnap, nMerges, mWep, fvars>>
+    /\ UNCHANGED <<cvars, lvars, clvars, bvars, rvars, ivars, lastPers, pSnap, pUnp, lastMerged, pW, iSlot, mpc, ctrl, lastPlanned, mSnap, nMerges, fvars>>
 
 \* slow-merger pause loop:  for numFiles >= N && lastMergedEpoch < lastPersistedEpoch {
 \*     select { case <-closeCh: break OUTER; case ew := <-persisterNotifier: ... } }
 PSlowClosed ==
     /\ ppc = "slow" /\ closed /\ ppc' = "take"
-    /\ UNCHANGED <<cvars, lvars, clvars, bvars, rvars, ivars, lastPers, pSnap, pUnp, lastMerged, pW, pWep, iSlot, mvars, fvars>>
+    /\ UNCHANGED <<cvars, lvars, clvars, bvars, rvars, ivars, lastPers, pSnap, pUnp, lastMerged, pW, iSlot, mvars, fvars>>
 PSlowWatcher ==
     /\ ppc = "slow" /\ TakePSlot
     /\ lastMerged' = pSlotEp
     /\ mW' = MWAfterNotify(MWTaken, lastPers)
     /\ ppc' = IF pSlotEp < lastPers THEN "slow" ELSE "take"
-    /\ UNCHANGED <<cvars, lvars, clvars, bvars, rvars, ivars, lastPers, pSnap, pUnp, pW, pWep, iSlot, mpc, ctrl, lastPlanned, mSnap, nMerges, mWep, fvars>>
+    /\ UNCHANGED <<cvars, lvars, clvars, bvars, rvars, ivars, lastPers, pSnap, pUnp, pW, iSlot, mpc, ctrl, lastPlanned, mSnap, nMerges, fvars>>
 
 \* s.rootLock.Lock(); if s.root.epoch > lastPersistedEpoch { ourSnapshot = s.root; ourPersisted = s.rootPersisted; ... }
 \* then persistSnapshot: in-memory merge when >= 2 in-memory segments (or directly), else direct
@@ -425,7 +428,7 @@ PTake ==
                  \/ unp = 0 /\ ppc' = "finish"
          ELSE /\ ppc' = "n_send"
               /\ UNCHANGED <<pSnap, pUnp, ourPers, rootPers>>
-    /\ UNCHANGED <<cvars, lvars, clvars, applied, persisted, rvars, ivars, lastPers, lastMerged, pW, pWep, iSlot, mvars, fvars>>
+    /\ UNCHANGED <<cvars, lvars, clvars, applied, persisted, rvars, ivars, lastPers, lastMerged, pW, iSlot, mvars, fvars>>
 
 \* closeCh arm of `select { case <-s.closeCh: return ErrClosed; case s.merges <- sm: }`  and of
 \*                 `select { case <-s.closeCh: return ErrClosed; case s.persists <- persist: }`
@@ -434,7 +437,7 @@ PSendClosed ==
     /\ ppc \in {"mm_send", "pi_send"} /\ closed
     /\ persisted' = persisted \cup ourPers /\ ourPers' = {}
     /\ ppc' = "done" /\ pSnap' = 0 /\ pUnp' = 0
-    /\ UNCHANGED <<cvars, lvars, clvars, applied, rootPers, rvars, ivars, lastPers, lastMerged, pW, pWep, iSlot, mvars, fvars>>
+    /\ UNCHANGED <<cvars, lvars, clvars, applied, rootPers, rvars, ivars, lastPers, lastMerged, pW, iSlot, mvars, fvars>>
 
 \* bolt commit; close(ourPersisted...); close(persistWatchers...); lastPersistedEpoch = epoch;
 \* `changed` => continue OUTER
@@ -444,29 +447,29 @@ PFinish ==
     /\ mW' = IF mW = "listed" THEN "notified" ELSE mW
     /\ lastPers' = pSnap /\ pSnap' = 0 /\ pUnp' = 0          \* (dead from here on)
     /\ ppc' = IF epoch # pSnap THEN "top" ELSE "n_send"
-    /\ UNCHANGED <<cvars, lvars, clvars, applied, rootPers, rvars, ivars, lastMerged, pW, pWep, iSlot, mpc, ctrl, lastPlanned, mSnap, nMerges, mWep, pSlot, pSlotEp, fvars>>
+    /\ UNCHANGED <<cvars, lvars, clvars, applied, rootPers, rvars, ivars, lastMerged, pW, iSlot, mpc, ctrl, lastPlanned, mSnap, nMerges, pSlot, pSlotEp, fvars>>
 
 \* select { case <-s.closeCh: break OUTER; case s.introducerNotifier <- w: }
 PNotifyClosed ==
     /\ ppc = "n_send" /\ closed /\ ppc' = "done"
-    /\ UNCHANGED <<cvars, lvars, clvars, bvars, rvars, ivars, lastPers, pSnap, pUnp, lastMerged, pW, pWep, iSlot, mvars, fvars>>
+    /\ UNCHANGED <<cvars, lvars, clvars, bvars, rvars, ivars, lastPers, pSnap, pUnp, lastMerged, pW, iSlot, mvars, fvars>>
 PNotifySend ==
     /\ ppc = "n_send" /\ iSlot = "empty"
-    /\ iSlot' = "cur" /\ pW' = "slot" /\ pWep' = lastPers /\ ppc' = "wait"
+    /\ iSlot' = "cur" /\ pW' = "slot" /\ ppc' = "wait"
     /\ UNCHANGED <<cvars, lvars, clvars, bvars, rvars, ivars, lastPers, pSnap, pUnp, lastMerged, mvars, fvars>>
 
 \* select { case <-s.closeCh: break OUTER; case <-w.notifyCh: ; case ew = <-s.persisterNotifier: ... }
 PWaitClosed ==
     /\ ppc = "wait" /\ closed /\ ppc' = "done" /\ AbandonPW
-    /\ UNCHANGED <<cvars, lvars, clvars, bvars, rvars, ivars, lastPers, pSnap, pUnp, lastMerged, pWep, mvars, fvars>>
+    /\ UNCHANGED <<cvars, lvars, clvars, bvars, rvars, ivars, lastPers, pSnap, pUnp, lastMerged, mvars, fvars>>
 PWaitNotified ==
     /\ ppc = "wait" /\ pW = "notified" /\ pW' = "none" /\ ppc' = "top"
-    /\ UNCHANGED <<cvars, lvars, clvars, bvars, rvars, ivars, lastPers, pSnap, pUnp, lastMerged, pWep, iSlot, mvars, fvars>>
+    /\ UNCHANGED <<cvars, lvars, clvars, bvars, rvars, ivars, lastPers, pSnap, pUnp, lastMerged, iSlot, mvars, fvars>>
 PWaitWatcher ==
     /\ ppc = "wait" /\ TakePSlot
     /\ mW' = MWTaken /\ ppc' = "top" /\ AbandonPW
     /\ lastMerged' = IF PauseMode = "slow" /\ pSlotEp > lastMerged THEN pSlotEp ELSE lastMerged
-    /\ UNCHANGED <<cvars, lvars, clvars, bvars, rvars, ivars, lastPers, pSnap, pUnp, pWep, mpc, ctrl, lastPlanned, mSnap, nMerges, mWep, fvars>>
+    /\ UNCHANGED <<cvars, lvars, clvars, bvars, rvars, ivars, lastPers, pSnap, pUnp, mpc, ctrl, lastPlanned, mSnap, nMerges, fvars>>
 
 PersStep == PTopClosed \/ PTopWatcher \/ PTopDefault \/ PNapCloseOrTimeout \/ PNapWatcher
             \/ PSlowClosed \/ PSlowWatcher \/ PTake \/ PSendClosed \/ PFinish
@@ -480,7 +483,7 @@ AbandonMW == /\ mW' = "none"
 \* select { case <-s.closeCh: break OUTER; default: ourSnapshot = s.root ... }
 MTopClosed ==
     /\ mpc = "top" /\ closed /\ mpc' = "done"
-    /\ UNCHANGED <<cvars, lvars, clvars, bvars, rvars, ivars, pvars, ctrl, lastPlanned, mSnap, nMerges, mW, mWep, pSlot, pSlotEp, fvars>>
+    /\ UNCHANGED <<cvars, lvars, clvars, bvars, rvars, ivars, pvars, ctrl, lastPlanned, mSnap, nMerges, mW, pSlot, pSlotEp, fvars>>
 \* default arm: take the root; `if ctrlMsg == nil && epoch != lastEpochMergePlanned { ctrlMsg = dflt }`;
 \* planMergeAtSnapshot finds nothing (returns nil at once) or finds tasks (MTopWork).
 \* Planning and the bookkeeping after it are local to the merger and fused into this step.
@@ -488,15 +491,15 @@ CtrlAtTop == IF ctrl = None /\ epoch # lastPlanned THEN "dflt" ELSE ctrl
 MTopIdle ==
     /\ mpc = "top" /\ ~closed /\ CtrlAtTop = None
     /\ mpc' = "n_send"
-    /\ UNCHANGED <<cvars, lvars, clvars, bvars, rvars, ivars, pvars, ctrl, lastPlanned, mSnap, nMerges, mW, mWep, pSlot, pSlotEp, fvars>>
+    /\ UNCHANGED <<cvars, lvars, clvars, bvars, rvars, ivars, pvars, ctrl, lastPlanned, mSnap, nMerges, mW, pSlot, pSlotEp, fvars>>
 MTopNothing ==
     /\ mpc = "top" /\ ~closed /\ CtrlAtTop # None
     /\ AfterOK(CtrlAtTop, epoch)
-    /\ UNCHANGED <<cvars, lvars, clvars, bvars, rvars, ivars, pvars, nMerges, mW, mWep, pSlot, pSlotEp, fmSlot, fmInProg>>
+    /\ UNCHANGED <<cvars, lvars, clvars, bvars, rvars, ivars, pvars, nMerges, mW, pSlot, pSlotEp, fmSlot, fmInProg>>
 MTopWork ==
     /\ mpc = "top" /\ ~closed /\ CtrlAtTop # None /\ nMerges < MaxMerges
     /\ ctrl' = CtrlAtTop /\ mSnap' = epoch /\ nMerges' = nMerges + 1 /\ mpc' = "work"
-    /\ UNCHANGED <<cvars, lvars, clvars, bvars, rvars, ivars, pvars, lastPlanned, mW, mWep, pSlot, pSlotEp, fvars>>
+    /\ UNCHANGED <<cvars, lvars, clvars, bvars, rvars, ivars, pvars, lastPlanned, mW, pSlot, pSlotEp, fvars>>
 
 \* after a planMergeAtSnapshot error == segment.ErrClosed:
 \*   ForceMerge request: close(doneCh); ctrlMsg = nil; continue OUTER      else: break OUTER
@@ -509,43 +512,43 @@ MErrClosed ==
 \* segPlugin.MergeUsing(..., cw.cancelCh, ...): cancelCh is closed by closeCh or by the request's ctx
 MWorkDone ==
     /\ mpc = "work" /\ mpc' = "send"
-    /\ UNCHANGED <<cvars, lvars, clvars, bvars, rvars, ivars, pvars, ctrl, lastPlanned, mSnap, nMerges, mW, mWep, pSlot, pSlotEp, fvars>>
+    /\ UNCHANGED <<cvars, lvars, clvars, bvars, rvars, ivars, pvars, ctrl, lastPlanned, mSnap, nMerges, mW, pSlot, pSlotEp, fvars>>
 MWorkCancelled ==
     /\ mpc = "work" /\ (closed \/ (ctrl \in Callers /\ cancelled[ctrl]))
     /\ MErrClosed
-    /\ UNCHANGED <<cvars, lvars, clvars, bvars, rvars, ivars, pvars, lastPlanned, nMerges, mW, mWep, pSlot, pSlotEp, fmSlot, fmInProg>>
+    /\ UNCHANGED <<cvars, lvars, clvars, bvars, rvars, ivars, pvars, lastPlanned, nMerges, mW, pSlot, pSlotEp, fmSlot, fmInProg>>
 
 \* select { case <-s.closeCh: return ErrClosed; case s.merges <- sm: }
 MSendClosed ==
     /\ mpc = "send" /\ closed
     /\ MErrClosed
-    /\ UNCHANGED <<cvars, lvars, clvars, bvars, rvars, ivars, pvars, lastPlanned, nMerges, mW, mWep, pSlot, pSlotEp, fmSlot, fmInProg>>
+    /\ UNCHANGED <<cvars, lvars, clvars, bvars, rvars, ivars, pvars, lastPlanned, nMerges, mW, pSlot, pSlotEp, fmSlot, fmInProg>>
 
 \* select { case <-s.closeCh: break OUTER; case s.persisterNotifier <- ew: ; case ctrlMsg = <-s.forceMergeRequestCh: continue OUTER }
 MNotifyClosed ==
     /\ mpc = "n_send" /\ closed /\ mpc' = "done"
-    /\ UNCHANGED <<cvars, lvars, clvars, bvars, rvars, ivars, pvars, ctrl, lastPlanned, mSnap, nMerges, mW, mWep, pSlot, pSlotEp, fvars>>
+    /\ UNCHANGED <<cvars, lvars, clvars, bvars, rvars, ivars, pvars, ctrl, lastPlanned, mSnap, nMerges, mW, pSlot, pSlotEp, fvars>>
 MNotifySend ==
     /\ mpc = "n_send" /\ pSlot = "empty"
     /\ pSlot' = "cur" /\ pSlotEp' = (IF PauseMode = "slow" THEN lastPlanned ELSE 0)
-    /\ mW' = "slot" /\ mWep' = lastPlanned /\ mpc' = "wait"
+    /\ mW' = "slot" /\ mpc' = "wait"
     /\ UNCHANGED <<cvars, lvars, clvars, bvars, rvars, ivars, pvars, ctrl, lastPlanned, mSnap, nMerges, fvars>>
 MNotifyForce ==
     /\ mpc = "n_send" /\ fmSlot # None
     /\ ctrl' = fmSlot /\ fmSlot' = None /\ mpc' = "top"
-    /\ UNCHANGED <<cvars, lvars, clvars, bvars, rvars, ivars, pvars, lastPlanned, mSnap, nMerges, mW, mWep, pSlot, pSlotEp, fmDone, fmInProg>>
+    /\ UNCHANGED <<cvars, lvars, clvars, bvars, rvars, ivars, pvars, lastPlanned, mSnap, nMerges, mW, pSlot, pSlotEp, fmDone, fmInProg>>
 
 \* select { case <-s.closeCh: break OUTER; case <-ew.notifyCh: ; case ctrlMsg = <-s.forceMergeRequestCh: }
 MWaitClosed ==
     /\ mpc = "wait" /\ closed /\ mpc' = "done" /\ AbandonMW
-    /\ UNCHANGED <<cvars, lvars, clvars, bvars, rvars, ivars, pvars, ctrl, lastPlanned, mSnap, nMerges, mWep, fvars>>
+    /\ UNCHANGED <<cvars, lvars, clvars, bvars, rvars, ivars, pvars, ctrl, lastPlanned, mSnap, nMerges, fvars>>
 MWaitNotified ==
     /\ mpc = "wait" /\ mW = "notified" /\ mW' = "none" /\ mpc' = "top"
-    /\ UNCHANGED <<cvars, lvars, clvars, bvars, rvars, ivars, pvars, ctrl, lastPlanned, mSnap, nMerges, mWep, pSlot, pSlotEp, fvars>>
+    /\ UNCHANGED <<cvars, lvars, clvars, bvars, rvars, ivars, pvars, ctrl, lastPlanned, mSnap, nMerges, pSlot, pSlotEp, fvars>>
 MWaitForce ==
     /\ mpc = "wait" /\ fmSlot # None
     /\ ctrl' = fmSlot /\ fmSlot' = None /\ mpc' = "top" /\ AbandonMW
-    /\ UNCHANGED <<cvars, lvars, clvars, bvars, rvars, ivars, pvars, lastPlanned, mSnap, nMerges, mWep, fmDone, fmInProg>>
+    /\ UNCHANGED <<cvars, lvars, clvars, bvars, rvars, ivars, pvars, lastPlanned, mSnap, nMerges, fmDone, fmInProg>>
 
 MergStep == MTopClosed \/ MTopIdle \/ MTopNothing \/ MTopWork \/ MWorkDone \/ MWorkCancelled
             \/ MSendClosed \/ MNotifyClosed \/ MNotifySend \/ MNotifyForce
@@ -596,10 +599,10 @@ TypeOK ==
     /\ ppc \in {"top", "nap", "slow", "take", "mm_send", "mm_wait", "pi_send", "finish",
                 "n_send", "wait", "done", "absent"}
     /\ lastPers \in Nat /\ pSnap \in Nat /\ pUnp \in Nat /\ lastMerged \in Nat
-    /\ pW \in States /\ pWep \in Nat /\ iSlot \in Slots
+    /\ pW \in States /\ iSlot \in Slots
     /\ mpc \in {"top", "work", "send", "wait_n", "n_send", "wait", "done", "absent"}
     /\ ctrl \in Callers \cup {None, "dflt"} /\ lastPlanned \in Nat /\ mSnap \in Nat /\ nMerges \in 0..MaxMerges
-    /\ mW \in States /\ mWep \in Nat /\ pSlot \in Slots /\ pSlotEp \in Nat
+    /\ mW \in States /\ pSlot \in Slots /\ pSlotEp \in Nat
     /\ fmSlot \in Callers \cup {None} /\ fmDone \subseteq Callers /\ fmInProg \in Nat
 
 \* the RW lock excludes; a finished call holds nothing
@@ -643,12 +646,9 @@ CancelledSearchReturns ==
 (***************************************************************************)
 PSnapLive == ppc \in {"mm_send", "mm_wait", "pi_send", "finish"}
 MSnapLive == mpc \in {"work", "send", "wait_n"}
-PWLive    == pW \in {"slot", "listed"}
-MWLive    == mW \in {"slot", "listed"}
 SlowLive  == PauseMode = "slow"
 LiveEpochs == {epoch, lastPers, lastPlanned}
               \cup (IF PSnapLive THEN {pSnap} ELSE {}) \cup (IF MSnapLive THEN {mSnap} ELSE {})
-              \cup (IF PWLive THEN {pWep} ELSE {}) \cup (IF MWLive THEN {mWep} ELSE {})
               \cup (IF SlowLive THEN {lastMerged} ELSE {})
               \cup (IF SlowLive /\ pSlot # "empty" THEN {pSlotEp} ELSE {})
 MinLive == CHOOSE m \in LiveEpochs : \A x \in LiveEpochs : m <= x
@@ -656,7 +656,7 @@ Sh(live, v) == IF live THEN v - MinLive + 1 ELSE 0
 View == <<pc, op, pb, nops, cancelled, rd, viol, lvars, clvars, bvars, unp, ivars,
           ppc, IF PSnapLive THEN pUnp ELSE 0, pW, iSlot, mpc, ctrl, nMerges, mW, pSlot, fvars,
           Sh(TRUE, epoch), Sh(TRUE, lastPers), Sh(TRUE, lastPlanned), Sh(PSnapLive, pSnap), Sh(MSnapLive, mSnap),
-          Sh(PWLive, pWep), Sh(MWLive, mWep), Sh(SlowLive, lastMerged), Sh(SlowLive /\ pSlot # "empty", pSlotEp)>>
+          Sh(SlowLive, lastMerged), Sh(SlowLive /\ pSlot # "empty", pSlotEp)>>
 
 Symm == Permutations(Callers)
 =============================================================================
